@@ -10,6 +10,7 @@ import (
 	"bytes"
 	"encoding/binary"
 	"io"
+	"math"
 	"os"
 	"path"
 	"strings"
@@ -46,6 +47,8 @@ func (h *NFSProcedureHandler) handleCreate(body io.Reader, reply *RPCReply, auth
 	newUID := authCtx.EffectiveUID
 	newGID := authCtx.EffectiveGID
 	var isExclusive bool
+	var setSize bool
+	var newSize uint64
 	if createHow == 0 || createHow == 1 {
 		sattr, err := decodeSattr3(body)
 		if err != nil {
@@ -54,6 +57,7 @@ func (h *NFSProcedureHandler) handleCreate(body io.Reader, reply *RPCReply, auth
 		if sattr.SetMode {
 			mode = sattr.Mode
 		}
+		setSize, newSize = sattr.SetSize, sattr.Size
 		// Only allow explicit UID/GID override if caller is root (not squashed)
 		if sattr.SetUID && authCtx.EffectiveUID == 0 {
 			newUID = sattr.UID
@@ -85,6 +89,60 @@ func (h *NFSProcedureHandler) handleCreate(body io.Reader, reply *RPCReply, auth
 		return nfsErrorWithWcc(reply, mapError(err)), nil
 	}
 
+	// RFC 1813 3.3.8: CREATE must not destroy an object that already exists under this
+	// name, and the backend's Create truncates - so look before creating.
+	//   GUARDED    fails with NFS3ERR_EXIST and leaves the object alone.
+	//   UNCHECKED  keeps the object; of the requested attributes only an explicit size is applied.
+	//   EXCLUSIVE  keeps the object and hands it back (the create verifier is not stored, so a
+	//              repeated request is always treated as a retransmission of the create).
+	if existingNode, lookupErr := h.server.handler.Lookup(path.Join(node.path, name)); lookupErr == nil {
+		if createHow == 1 {
+			var buf bytes.Buffer
+			xdrEncodeUint32(&buf, NFSERR_EXIST)
+			if wccErr := encodeWccData(&buf, dirPreAttrs, dirPreAttrs); wccErr != nil {
+				return nfsErrorWithWcc(reply, NFSERR_EXIST), nil
+			}
+			reply.Data = buf.Bytes()
+			return reply, nil
+		}
+		if !isExclusive && setSize {
+			if newSize > uint64(math.MaxInt64) {
+				return nfsErrorWithWcc(reply, NFSERR_INVAL), nil
+			}
+			if max := h.server.handler.policy.Load().MaxFileSize; max > 0 && newSize > uint64(max) {
+				return nfsErrorWithWcc(reply, NFSERR_FBIG), nil
+			}
+			if err := existingNode.Truncate(int64(newSize)); err != nil {
+				return nfsErrorWithWcc(reply, mapError(err)), nil
+			}
+			h.server.handler.attrCache.Invalidate(existingNode.path)
+			if refreshed, err := h.server.handler.Lookup(existingNode.path); err == nil {
+				existingNode = refreshed
+			}
+		}
+		dirPostAttrs, _ := h.server.handler.GetAttr(node)
+		if dirPostAttrs == nil {
+			dirPostAttrs = dirPreAttrs
+		}
+		handle := h.server.handler.fileMap.Allocate(existingNode)
+		existingNode.mu.RLock()
+		existingAttrsCopy := *existingNode.attrs
+		existingNode.mu.RUnlock()
+		var buf bytes.Buffer
+		xdrEncodeUint32(&buf, NFS_OK)
+		xdrEncodeUint32(&buf, 1)
+		xdrEncodeFileHandle(&buf, handle)
+		xdrEncodeUint32(&buf, 1)
+		if err := encodeFileAttributes(&buf, &existingAttrsCopy); err != nil {
+			return nfsErrorWithWcc(reply, NFSERR_IO), nil
+		}
+		if err := encodeWccData(&buf, dirPreAttrs, dirPostAttrs); err != nil {
+			return nfsErrorWithWcc(reply, NFSERR_IO), nil
+		}
+		reply.Data = buf.Bytes()
+		return reply, nil
+	}
+
 	attrs := &NFSAttrs{
 		Mode: os.FileMode(mode),
 		Uid:  newUID,
@@ -93,36 +151,6 @@ func (h *NFSProcedureHandler) handleCreate(body io.Reader, reply *RPCReply, auth
 
 	newNode, err := h.server.handler.Create(node, name, attrs)
 	if err != nil {
-		// For EXCLUSIVE creates, if file already exists, return success
-		// (simplified idempotent behavior per RFC 1813 - full verifier comparison not implemented)
-		if isExclusive && os.IsExist(err) {
-			lookupPath := path.Join(node.path, name)
-			existingNode, lookupErr := h.server.handler.Lookup(lookupPath)
-			if lookupErr == nil {
-				dirPostAttrs, _ := h.server.handler.GetAttr(node)
-				if dirPostAttrs == nil {
-					dirPostAttrs = dirPreAttrs
-				}
-				handle := h.server.handler.fileMap.Allocate(existingNode)
-				existingNode.mu.RLock()
-				existingAttrsCopy := *existingNode.attrs
-				existingNode.mu.RUnlock()
-				var buf bytes.Buffer
-				xdrEncodeUint32(&buf, NFS_OK)
-				xdrEncodeUint32(&buf, 1)
-				xdrEncodeFileHandle(&buf, handle)
-				xdrEncodeUint32(&buf, 1)
-				if err := encodeFileAttributes(&buf, &existingAttrsCopy); err != nil {
-					return nfsErrorWithWcc(reply, NFSERR_IO), nil
-				}
-				if err := encodeWccData(&buf, dirPreAttrs, dirPostAttrs); err != nil {
-					return nfsErrorWithWcc(reply, NFSERR_IO), nil
-				}
-				reply.Data = buf.Bytes()
-				return reply, nil
-			}
-		}
-
 		dirPostAttrs, _ := h.server.handler.GetAttr(node)
 		if dirPostAttrs == nil {
 			dirPostAttrs = dirPreAttrs
